@@ -63,7 +63,8 @@ RULE = ('random class diagrams as for C14, every second one with XML-special / n
 EXHAUSTIVE = {'quick': False, 'thorough': False}
 ASSUMPTIONS = [
     'EP_PKGREF package references (the `for ep_pkg in many(ep_pkg).EP_PKG[1402, ...]` loop of is_contained_in) are not '
-    'modelled and not generated; acyclic containment and acyclic user-type chains (XWF: TreeOk, DtChainOk) - Python does '
+    'in the Lean model; family pkgref checks them by D only, with the referred package never a global one (a data type of a '
+    'global package referred to from the component is declared twice: candidate finding reported); acyclic containment and acyclic user-type chains (XWF: TreeOk, DtChainOk) - Python does '
     'not terminate otherwise',
     'the EMPTY data type name is in the domain (modelled: omitted wherever Python tests the name for truthiness)',
     'domain: well-formed populations as for C14; data type names are unique (xs:simpleType names must be)',
@@ -204,6 +205,29 @@ def generate(ctx):
         if j % 4 == 0:
             yield {'src': 'synth', 'diagram': dd, 'comp': name, 'edits': [], 'entry': 'main',
                    'perm': r.randint(1, 1 << 30), 'nospec': True}
+    # ---- package references (EP_PKGREF, R1402): classes and data types of a package REFERRED to from inside the component
+    #      belong to its scope.  D only (the Lean model has no package references).  PKGREF_TO_GLOBAL = False: the referred
+    #      package is never a global one - a data type of a global package referred to from the component is both "global" and
+    #      "contained" for build_schema and gets declared TWICE (reported to the coordinator as a candidate finding).
+    for j in range(ctx.pick(120, 800)):
+        r = rng.fork('pkgref', j)
+        base = E.gen_diagram(r, max_classes=4, empty_enum=True)
+        ids = iter(range(2 * 10 ** 7 + 10 * j, 2 * 10 ** 7 + 10 * (j + 1)))
+        dd, gained = E.add_package_references(r, base, lambda: next(ids), to_global=PKGREF_TO_GLOBAL)
+        if not gained:
+            continue
+        yield {'src': 'synth', 'diagram': dd, 'comp': r.choice(gained), 'edits': [], 'entry': r.choice(['build', 'main']),
+               'perm': r.randint(1, 1 << 30), 'audit': j % 3 == 0, 'nomodel': True}
+    # ---- the command line of gen_xsd_schema: long / joined / = spellings, -v, several model paths, usage errors
+    styles = ['long', 'eq', 'joined', 'verbose', 'split', 'split', 'no-component', 'no-output', 'no-model']
+    for j in range(ctx.pick(36, 360)):
+        r = rng.fork('cli', j)
+        dd = E.gen_diagram(r, max_classes=4, special_names=(j % 4 == 0), empty_enum=True)
+        comps = [k['name'] for k in dd['containers'] if k['comp']]
+        if not comps:
+            continue
+        yield {'src': 'synth', 'diagram': dd, 'comp': r.choice(comps), 'edits': [], 'entry': 'main',
+               'cli': styles[j % len(styles)], 'perm': r.randint(1, 1 << 30)}
     # ---- sessions: several schemas generated in ONE process from ONE loaded population - both routes on the untouched
     #      model, then schemas of different components interleaved with edits of the population, SQL components built from
     #      the same population (mk_component) and mutation of the tree returned last; plus two classes with the same key
@@ -291,12 +315,46 @@ def _serialised_ok(el, got, fail, when=''):
              % (when, json.dumps(t1), json.dumps(t2), json.dumps(got)))
 
 
+PKGREF_TO_GLOBAL = False
+USAGE_ERRORS = ('no-component', 'no-output', 'no-model')
+
+
+def _xsd_argv(style, out, name, path, tmpdir, seed):
+    """command lines of gen_xsd_schema: every spelling of the options, several model paths, usage errors"""
+    if style == 'long':
+        return ['--output', out, '--component', name, path]
+    if style == 'eq':
+        return [path, '--component=' + name, '--output=' + out]
+    if style == 'joined':
+        return ['-c' + name, '-o' + out, path]
+    if style == 'verbose':
+        return ['-vv', '-c', name, '-o', out, '-v', path]
+    if style == 'split':
+        return ['-c', name, '-o', out] + C14._split_file(path, tmpdir, seed)
+    if style == 'no-component':
+        return ['-o', out, path]
+    if style == 'no-output':
+        return ['-c', name, path]
+    if style == 'no-model':
+        return ['-c', name, '-o', out]
+    return ['-c', name, '-o', out, path]
+
+
 def _call_main(gen_xsd, argv, fail):
     """gen_xsd_schema.main; an exception of the XML machinery means the document it built is not well-formed"""
     import logging
     import xml.parsers.expat
+    import contextlib
+    import io
     try:
-        gen_xsd.main(argv)
+        with contextlib.redirect_stdout(io.StringIO()), contextlib.redirect_stderr(io.StringIO()):
+            gen_xsd.main(argv)
+        outs = [a for a in argv if a.endswith('.xsd')]
+        given = outs[-1].split('=')[-1] if outs else None
+        given = given[2:] if given and given.startswith('-o') else given
+        if given and not os.path.exists(given):
+            fail('output-missing', 'main returned normally but did not write %r' % (given,))
+            return False
         return True
     except (xml.parsers.expat.ExpatError, SyntaxError, ValueError) as ex:
         fail('not-well-formed', 'main fails while writing the schema: %s: %s' % (type(ex).__name__, ex))
@@ -376,7 +434,7 @@ def run_impl(case):
         else:
             out = os.path.join(tmpdir, 'schema.xsd')
             try:
-                ok = _call_main(gen_xsd, ['-c', name, '-o', out, path], fail)
+                ok = _call_main(gen_xsd, _xsd_argv(case.get('cli'), out, name, path, tmpdir, case.get('perm')), fail)
                 text = open(out, encoding='utf-8').read() if ok else ''
                 try:
                     if not ok:
@@ -420,12 +478,19 @@ def run_impl(case):
         elif obs[2] != want1:
             fail('edit:' + _diff(obs[2], want1), 'after the edits the generated schema is %s, the edited class model '
                  'specifies %s (before: %s)' % (json.dumps(obs[2]), json.dumps(want1), json.dumps(obs[1])))
+    elif case.get('cli') in USAGE_ERRORS:
+        pass        # a usage error: exit status 1 and no output (checked above), nothing else is demanded
     elif want0 is not None:
         fail('component-rejected', 'main exits although component %r exists' % (name,))
+    if case.get('cli') in USAGE_ERRORS and obs[0] != 'error':
+        fail('usage-error-accepted', 'main ran although the command line is incomplete (%s)' % case['cli'])
     has_attr = want1 is not None and '"xs:attribute"' in json.dumps(want1)
     nontrivial = bool(has_attr and (not edits or want0 != want1))
     key = hashlib.sha1(json.dumps(case, sort_keys=True, default=str).encode()).hexdigest()
-    return {'obs': obs, 'd_fail': fails[:3], 'nontrivial': nontrivial, 'key': key, 'stats': stats}
+    out = {'obs': obs, 'd_fail': fails[:3], 'nontrivial': nontrivial, 'key': key, 'stats': stats}
+    if case.get('cli') in USAGE_ERRORS:
+        out['model_line'] = None
+    return out
 
 
 def _session_model_steps(case):
@@ -566,17 +631,33 @@ def _diff(got, want):
         return 'simple-type-set'
     if g[1] != w[1]:
         return 'restriction-or-enumerators'
-    if sorted(g[2], key=repr) != sorted(w[2], key=repr):
+    gl, wl = _class_decls(got), _class_decls(want)         # lists: two classes may carry the same key letters
+    if [n for n, _ in gl] != [n for n, _ in wl]:
         return 'class-set'
-    for k in w[2]:
-        if [a[0] for a in g[2][k]] != [a[0] for a in w[2][k]]:
-            return 'attribute-set'
-        if g[2][k] != w[2][k]:
-            return 'attribute-type'
+    if sorted((n, [a[0] for a in al]) for n, al in gl) != sorted((n, [a[0] for a in al]) for n, al in wl):
+        return 'attribute-set'
+    if gl != wl:
+        return 'attribute-type'
     return 'other'
 
 
+def _class_decls(t):
+    """[(class name, sorted [(attribute name, type)])] of a canonical schema tree, one entry per class element"""
+    out = []
+    for c in t[2]:
+        if c[0] == 'xs:element':
+            for ct in c[2]:
+                for sq in ct[2]:
+                    for cl in sq[2]:
+                        out.append((dict(map(tuple, cl[1])).get('name'), sorted(
+                            (dict(map(tuple, a[1])).get('name'), dict(map(tuple, a[1])).get('type'))
+                            for x in cl[2] for a in x[2])))
+    return sorted(out, key=repr)
+
+
 def model_line(case):
+    if case.get('nomodel'):
+        return None
     d = C14._diagram_of(case)
     if case.get('family') == 'session':
         return dumps([Sym('c20-session'), E.diagram_sexp(d),
